@@ -42,6 +42,11 @@ def points(draw, labs):
     for a, b in zip(srt, srt[1:]):
         cands += [(a + b) / 2.0, a + (b - a) / 4.0, b - (b - a) / 8.0]
     pts = draw(st.lists(st.sampled_from(cands), min_size=0, max_size=5, unique=True))
+    k = draw(st.integers(0, 7))
+    if k == 0:
+        return [float(x) for x in draw(st.permutations(list(labs)))]      # exactly the existing labels, in another order
+    if k == 1:
+        return [float(x) for x in labs]                                     # ... or in the same order (identity)
     if draw(st.booleans()):
         pts = sorted(pts)
     return [float(x) for x in pts]
